@@ -156,6 +156,10 @@ _TOTAL_STD = (
     ("std::option::Option::<&T>::", {"copied", "cloned"}),
     ("std::option::Option::<T>::", {"ok_or", "ok_or_else", "map", "and_then", "filter", "is_some", "is_none", "as_ref", "unwrap_or", "unwrap_or_default", "or", "xor", "zip", "copied", "cloned"}),
     ("std::result::Result::<T, E>::", {"map", "map_err", "and_then", "ok", "is_ok", "is_err", "or_else"}),
+    # iterator adapters and searches that cannot panic by themselves (their closures are bodies of the open path and
+    # are inspected like any other); `sum`/`product` (overflow), `step_by` (zero step) and `nth`-style indexing stay out
+    ("std::iter::Iterator::", {"copied", "cloned", "find", "find_map", "position", "any", "all", "enumerate", "rev", "map", "filter", "next", "zip", "take", "skip", "chain", "last"}),
+    ("std::iter::IntoIterator::", {"into_iter"}),
 )
 
 
